@@ -282,3 +282,17 @@ def replay_bool(ctx, path):
             c[k] = pymc.T(c[k])
     events = run_bool_events(ctx, [c])
     ctx.log('replayed: ' + json.dumps(events[0] if events else None)[:600])
+
+
+def run_fresh(ctx, preamble, kind, cases):
+    """run the cases in a fresh interpreter after `preamble` (see fresh_worker.py)"""
+    import os, subprocess, sys
+    from common import MachineryError
+    cf = os.path.join(ctx.tmp, 'fresh_%s_%s.json' % (kind, preamble))
+    of = cf + '.out'
+    json.dump(cases, open(cf, 'w'))
+    p = subprocess.run([sys.executable, os.path.join(os.path.dirname(os.path.abspath(__file__)), 'fresh_worker.py'), preamble, kind, cf, of],
+                       stdout=subprocess.PIPE, stderr=subprocess.STDOUT, text=True, timeout=3000)
+    if p.returncode != 0:
+        raise MachineryError('fresh worker failed: ' + p.stdout[-500:])
+    return json.load(open(of))
